@@ -742,6 +742,16 @@ func execReaderCase(c *RCase, arch int, emit func(interface{})) {
 						if cerr != nil {
 							cls, det = errClassR(cerr, ss)
 						}
+						if cls == "corrupt" && rec.lastRaw == "" {
+							rec.lastRaw = cerr.Error()
+						}
+						if cls == "corrupt" && morc.RefVerdict == "uxeof" && morc.StdVerdict == "uxeof" && memberBase == 0 {
+							// (as in the Read loop) both oracles ran out of input; "corrupt" is only wrong if the bytes can be completed
+							if !provablyCompletable(c.Kind, data, dict, origin) {
+								det += "|dead"
+								rec.dead = true
+							}
+						}
 						rec.read(1, 0, cls, det, true, pan)
 						if pan == "" {
 							p := make([]byte, 16)
